@@ -354,9 +354,14 @@ def execute(scenario):
             # damaged real-world spreadsheets, read as data and as CID
             from cutplace import rowio
 
-            judge("fixture-rows", *lib.call(lambda: list(rowio.auto_rows(data_path))))
-            judge("fixture-as-cid", *lib.call(interface.Cid, data_path))
-            status, code, error = _call_main(["cutplace", data_path])
+            status, value = lib.call_with_deadline(8, lambda: list(rowio.auto_rows(data_path)))
+            if status == "hang":
+                # non-termination is neither "succeeds" nor "raises a cutplace error"
+                result.digest = history.digest()
+                raise core.Violation("does-not-terminate", sorted(features), "reading %s: %s" % (data_path, value))
+            judge("fixture-rows", status, value)
+            judge("fixture-as-cid", *lib.call_with_deadline(8, interface.Cid, data_path))
+            status, code, error = lib.call_with_deadline(8, _call_main, ["cutplace", data_path])[1]
             history.add("sut", "main", [status, code])
             if status == "exception" or code == 4:
                 leaks.append(("main", error or RuntimeError("exit code 4")))
